@@ -145,6 +145,77 @@ func c14ObservedOrder(dsl string) (types []string, rels map[string][]string, con
 	return
 }
 
+// c14CommentContent: wherever the source-information output carries a comment on the line of a type, relation or
+// condition that the model attributes to a module / file, the comment mentions that module (as a word) and that file
+// (as a substring). The wording and punctuation of the comment are not prescribed.
+func c14CommentContent(m *gen.Model, withSrc string) string {
+	words := func(c string) map[string]bool {
+		out := map[string]bool{}
+		for _, w := range strings.FieldsFunc(c, func(r rune) bool {
+			return r == ' ' || r == ',' || r == ':' || r == ';' || r == '"' || r == '\'' || r == '(' || r == ')' || r == '[' || r == ']'
+		}) {
+			out[w] = true
+		}
+		return out
+	}
+	types := map[string]*gen.TypeDef{}
+	for i := range m.Types {
+		types[m.Types[i].Name] = &m.Types[i]
+	}
+	conds := map[string]*gen.Condition{}
+	for i := range m.Conds {
+		conds[m.Conds[i].Name] = &m.Conds[i]
+	}
+	var cur *gen.TypeDef
+	inCond := false
+	for _, l := range strings.Split(withSrc, "\n") {
+		code, comment := l, ""
+		if j := strings.Index(l, " #"); j >= 0 {
+			code, comment = l[:j], l[j+2:]
+		}
+		var mod, file, what string
+		switch {
+		case inCond:
+			if code == "}" {
+				inCond = false
+			}
+			continue
+		case strings.HasPrefix(code, "type "):
+			cur = types[strings.TrimPrefix(code, "type ")]
+			if cur != nil {
+				mod, file, what = cur.Module, cur.File, "type "+cur.Name
+			}
+		case strings.HasPrefix(code, "    define ") && cur != nil:
+			rest := strings.TrimPrefix(code, "    define ")
+			if i := strings.Index(rest, ": "); i > 0 {
+				for k := range cur.Rels {
+					if cur.Rels[k].Name == rest[:i] {
+						mod, file, what = cur.Rels[k].Module, cur.Rels[k].File, "relation "+cur.Name+"#"+rest[:i]
+					}
+				}
+			}
+		case strings.HasPrefix(code, "condition "):
+			rest := strings.TrimPrefix(code, "condition ")
+			if i := strings.Index(rest, "("); i > 0 {
+				if c := conds[rest[:i]]; c != nil {
+					mod, file, what = c.Module, c.File, "condition "+c.Name
+				}
+			}
+			inCond = true
+		}
+		if comment == "" || what == "" {
+			continue
+		}
+		if mod != "" && !words(comment)[mod] {
+			return fmt.Sprintf("the source comment of %s (%q) does not name its module %q", what, comment, mod)
+		}
+		if file != "" && !strings.Contains(comment, file) {
+			return fmt.Sprintf("the source comment of %s (%q) does not name its file %q", what, comment, file)
+		}
+	}
+	return ""
+}
+
 func c14StripComments(dsl string) string {
 	lines := strings.Split(dsl, "\n")
 	for i, l := range lines {
@@ -331,6 +402,10 @@ func c14Check(in c14Input) string {
 			return fmt.Sprintf("parameters of condition %s are printed in order %q, documented order is %q", cn, op[cn], wp[cn])
 		}
 	}
+	// a source comment names the module and the file of the item it stands on (whatever its wording)
+	if msg := c14CommentContent(m, withSrc); msg != "" {
+		return msg + "\n" + withSrc
+	}
 	// inert comments
 	if stripped := c14StripComments(withSrc); stripped != plain {
 		return fmt.Sprintf("stripping comments from the source-information output does not give the plain output:\n--- plain:\n%q\n--- stripped:\n%q", plain, stripped)
@@ -346,7 +421,7 @@ func c14Check(in c14Input) string {
 	return ""
 }
 
-var c14Files = []string{"a.fga", "b.fga", "dir/c.fga", "my file.fga", "x #1.fga", "ü/ñ.fga", "a, file: b.fga", "z.fga", ""}
+var c14Files = []string{"a.fga", "b.fga", "dir/c.fga", "my file.fga", "x #1.fga", "ü/ñ.fga", "a, file: b.fga", "z.fga", "", "a", "a.f", "dir/c", "dir-c.fga", "A.fga"}
 
 func c14Draw(rt *rapid.T) c14Input {
 	m := gen.DSLModel(rt, gen.DSLOpts{Rich: rapid.Bool().Draw(rt, "rich"), Conditions: true, MultiLine: true, MaxTypes: 5, MaxRels: 5})
@@ -367,7 +442,13 @@ func c14Draw(rt *rapid.T) c14Input {
 		m.Conds = append(m.Conds, cd)
 	}
 	if rapid.IntRange(0, 2).Draw(rt, "modular") > 0 {
-		mods := []string{"core", "m1", "m2", "a-b"}
+		// module names: some are prefixes of others, continued by characters that sort before and after ':' and ' '
+		// (keys glued together from module, file and name must not reorder them)
+		mods := []string{"core", "m1", "m2", "a-b", "a", "a.b", "a/b", "a_b", "m", "billing", "billing-eu", "team", "team2", "Core"}
+		if rapid.IntRange(0, 3).Draw(rt, "fewMods") > 0 {
+			k := rapid.IntRange(0, len(mods)-3).Draw(rt, "modsFrom")
+			mods = mods[k : k+3]
+		}
 		for ti := range m.Types {
 			if rapid.IntRange(0, 5).Draw(rt, "tmod") > 0 {
 				m.Types[ti].Module = rapid.SampledFrom(mods).Draw(rt, "tmodn")
